@@ -51,3 +51,5 @@ func TestC16(t *testing.T) { runProp(t, "C16", drawC16) }
 func TestC09(t *testing.T) { runProp(t, "C09", drawC09) }
 
 func TestC10(t *testing.T) { runProp(t, "C10", drawC10) }
+
+func TestC19Sweep(t *testing.T) { runC19Sweep(t) }
